@@ -88,7 +88,28 @@ def check_su2(repo, chk, parts=("algebra", "euler")):
             pass
         return None
 
-    hooks["numeric_call_first"] = lambda tr_, d, args, kwargs, n: (sp.Min(*[sp.sympify(x) for x in args]) if d.split(".")[-1] == "minimum" else sp.Max(*[sp.sympify(x) for x in args])) if d.split(".")[-1] in ("minimum", "maximum") and len(args) == 2 else NotImplemented
+    def _minmax(tr_, d, args, kwargs, n):
+        last_ = d.split(".")[-1]
+        if last_ in ("atan2", "arctan2") and len(args) == 2:
+            # atan2(Im z, Re z) is the phase of z: the same principal value as tf.math.angle(z)
+            im_, re_ = sp.sympify(args[0]), sp.sympify(args[1])
+            z_ = None
+            if isinstance(im_, sp.im) and isinstance(re_, sp.re) and im_.args[0] == re_.args[0]:
+                z_ = im_.args[0]
+            else:
+                z_ = sp.simplify((re_ + sp.I * im_).rewrite(sp.exp))
+            return angle_hook(tr_, z_)
+        if last_ not in ("minimum", "maximum") or len(args) != 2:
+            return NotImplemented
+        a_, b_ = [sp.sympify(x) for x in args]
+        # a clip into [-1, 1] spelt minimum(maximum(x, -1), 1): inactive on the assumed domain 0 < beta < pi, like
+        # clip_by_value above
+        for lim, other in ((a_, b_), (b_, a_)):
+            if lim.is_number and not other.is_number and ((last_ == "minimum" and lim == 1) or (last_ == "maximum" and lim == -1)):
+                return other
+        return sp.Min(a_, b_) if last_ == "minimum" else sp.Max(a_, b_)
+
+    hooks["numeric_call_first"] = _minmax
     tr = Translator(repo, hooks=hooks, max_depth=6, where_policy=generic_policy)
     chk.assume("SU2M euler clause: 0 < beta < pi (clip_by_value inactive, cos(beta/2), sin(beta/2) > 0); (alpha+gamma)/2 and (alpha-gamma)/2 in (-pi, pi)")
 
@@ -176,3 +197,17 @@ def check_su2(repo, chk, parts=("algebra", "euler")):
         for i in range(2):
             for j in range(2):
                 oblige("%s: R_z(g') R_y(b') R_z(a') == M [%d][%d]" % (label, i, j), Rm0[i][j], Mm0[i][j], A + "SU2M.get_euler_angle", "euler-%s-%d%d" % (label, i, j), wrap_grid=True)
+    # ---- the little-group element of a massless particle: it has no rest frame, its alignment matrix is triangular
+    # ("rotation about the momentum" times a null translation that acts trivially on the helicity states) and is NOT
+    # unitary.  The helicity must not mix: beta = 0, whatever the translation part is.
+    T_ = sp.Symbol("T_", positive=True)
+    Mt = {"x": [[sp.exp(-sp.I * u), sp.Integer(0)], [T_ * sp.exp(sp.I * v), sp.exp(sp.I * u)]]}
+    angt = call("get_euler_angle", [], self_obj=Mt)
+    try:
+        bt = sp.simplify(sp.sympify(angt["beta"]))
+    except (TypeError, KeyError, ValueError):
+        bt = sp.nan
+    okt = bt == 0
+    chk.oblige("E6-su2", "get_euler_angle of a triangular (massless little-group) matrix [[e^-iu, 0], [T e^iv, e^iu]]: beta == 0 for every T", okt)
+    if not okt:
+        chk.violation("E6-su2", A + "SU2M.get_euler_angle", "euler-triangular", "for the triangular matrix [[e^-iu, 0], [T e^iv, e^iu]] (the alignment of a massless particle: a phase times a null translation) get_euler_angle returns beta = %s instead of 0: the helicities of a massless final-state particle are mixed, by an amount that depends on the frame - the density then depends on the reference chain and on the choice of z axis" % bt, file="tf_pwa/angle.py", line=repo.fn(A + "SU2M.get_euler_angle").lineno)
